@@ -29,8 +29,13 @@ func drawRCase(t *rapid.T, o rOpts) rt.Case {
 	if rapid.IntRange(0, 4).Draw(t, "failcommit") == 0 {
 		c.Cfg.FailCommitAt = []uint64{uint64(rapid.IntRange(1, 3).Draw(t, "failat"))}
 	}
-	if rapid.IntRange(0, 5).Draw(t, "committeefail") == 0 {
+	switch rapid.IntRange(0, 11).Draw(t, "committeefail") {
+	case 0:
 		c.Cfg.CommitteeFailFirst = 1
+	case 1:
+		if o.Focus == "C16" || o.Focus == "C15" {
+			c.Cfg.CommitteeFailFirst = 1 << 30 // the committee source stays unavailable (and honours its context)
+		}
 	}
 	if o.RealTimer {
 		c.Cfg.RealTimer = true
@@ -39,7 +44,11 @@ func drawRCase(t *rapid.T, o rOpts) rt.Case {
 	for i := rapid.IntRange(2, o.MaxOps).Draw(t, "nops"); i > 0; i-- {
 		k := rapid.SampledFrom(o.Kinds).Draw(t, "op")
 		switch k {
-		case "round", "release", "settle", "cancel", "callcancelled":
+		case "round":
+			c.Ops = append(c.Ops, rt.Op{K: k, Order: rapid.SampledFrom([]string{"prc", "prc", "prc", "pcr", "cpr", "crp", "prcd", "pcrd", "rcp"}).Draw(t, "order")})
+		case "flood":
+			c.Ops = append(c.Ops, rt.Op{K: "flood", N: rapid.SampledFrom([]int{50, 1100}).Draw(t, "flood")})
+		case "release", "settle", "cancel", "callcancelled":
 			c.Ops = append(c.Ops, rt.Op{K: k})
 		case "plan":
 			c.Ops = append(c.Ops, rt.Op{K: "plan", Kind: rapid.SampledFrom([]string{"propose", "validate", "validate", "commit", "commit", "committee"}).Draw(t, "spi"),
@@ -117,6 +126,9 @@ func checkC13(r *rt.Run) *rViolation {
 func checkC14(r *rt.Run) *rViolation {
 	h := r.H
 	for i, rec := range r.Records {
+		if rec.Op.K == "flood" && !rec.Returned {
+			return &rViolation{"main-loop-blocked", fmt.Sprintf("HandleConsensusMessage stopped being accepted after a burst of %d messages: the main loop is blocked (blocked gates at that time: %v)", rec.Op.N, rec.BlockedAtStart)}
+		}
 		if rec.Op.K != "sync" && rec.Op.K != "burst" {
 			continue
 		}
@@ -405,12 +417,12 @@ func gateOverlap(r *rt.Run, kinds ...string) bool {
 }
 
 func TestC13R(t *testing.T) {
-	o := rOpts{Focus: "C13", MaxOps: 14, Kinds: []string{"round", "round", "round", "plan", "trigger", "trigger", "sync", "sync", "burst", "release", "settle", "sleep"}}
+	o := rOpts{Focus: "C13", MaxOps: 14, Kinds: []string{"round", "round", "round", "round", "plan", "trigger", "trigger", "sync", "sync", "burst", "release", "settle", "sleep", "flood"}}
 	rProperty(t, o, checkC13, func(r *rt.Run) bool { return gateOverlap(r, "sync", "burst", "trigger") || len(r.Case.Cfg.FailCommitAt) > 0 }, nil)
 }
 
 func TestC14R(t *testing.T) {
-	o := rOpts{Focus: "C14", MaxOps: 14, Kinds: []string{"round", "round", "plan", "sync", "sync", "sync", "burst", "burst", "oldsync", "release", "settle", "sleep", "trigger"}}
+	o := rOpts{Focus: "C14", MaxOps: 14, Kinds: []string{"round", "round", "plan", "plan", "sync", "sync", "sync", "burst", "burst", "oldsync", "release", "settle", "sleep", "trigger", "flood"}}
 	rProperty(t, o, checkC14, func(r *rt.Run) bool {
 		if gateOverlap(r, "sync", "burst") {
 			return true
@@ -425,7 +437,7 @@ func TestC14R(t *testing.T) {
 }
 
 func TestC15R(t *testing.T) {
-	o := rOpts{Focus: "C15", MaxOps: 14, Kinds: []string{"round", "round", "plan", "plan", "plan", "trigger", "trigger", "trigger", "sync", "sync", "release", "settle", "settle", "sleep"}}
+	o := rOpts{Focus: "C15", MaxOps: 14, Kinds: []string{"round", "round", "plan", "plan", "plan", "trigger", "trigger", "trigger", "sync", "sync", "release", "settle", "settle", "sleep", "flood"}}
 	rProperty(t, o, checkC15, func(r *rt.Run) bool {
 		for _, e := range r.H.Gates.Snapshot() {
 			if e.Policy != "pass" {
